@@ -9,6 +9,14 @@ use common::Rng;
 use swimos_model::identifier::is_identifier;
 use swimos_model::{Attr, BigInt, Blob, Item, Text, Value};
 
+/// Small-input mode (interpreter / sanitizer passes run at a tiny `--scale`): trees of a few nodes,
+/// chains of depth <= 6.
+pub static SMALL: std::sync::atomic::AtomicBool = std::sync::atomic::AtomicBool::new(false);
+
+fn small() -> bool {
+    SMALL.load(std::sync::atomic::Ordering::Relaxed)
+}
+
 // ------------------------------------------------------------------------------------------------
 // Syntax tree
 
@@ -222,6 +230,19 @@ pub fn gen_deep(rng: &mut Rng, depth: u32) -> Syn {
 
 /// A syntax tree: mostly small, sometimes wide, sometimes a deep chain (depth <= 64).
 pub fn gen_syn(rng: &mut Rng) -> Syn {
+    if small() {
+        return match rng.below(6) {
+            0 => {
+                let d = rng.range(1, 6) as u32;
+                gen_deep(rng, d)
+            }
+            1 => Syn::Leaf(gen_leaf(rng)),
+            _ => {
+                let mut budget = 4;
+                gen_syn_b(rng, &mut budget, 2)
+            }
+        };
+    }
     match rng.below(20) {
         0 => {
             let d = rng.range(1, 64) as u32;
@@ -983,6 +1004,19 @@ pub fn gen_deep_value(rng: &mut Rng, depth: u32) -> Value {
 }
 
 pub fn gen_any_value(rng: &mut Rng) -> Value {
+    if small() {
+        return match rng.below(6) {
+            0 => {
+                let d = rng.range(1, 6) as u32;
+                gen_deep_value(rng, d)
+            }
+            1 => gen_prim_value(rng),
+            _ => {
+                let mut b = 4;
+                gen_value(rng, 2, &mut b)
+            }
+        };
+    }
     match rng.below(12) {
         0 => {
             let d = rng.range(1, 64) as u32;
